@@ -167,6 +167,10 @@ def finish(prop, tier, seed, level, res, coverage, assumptions, t0, replay_hint=
         print("KNOWN-FINDING: property=%s %s (%d cases this run; e.g. %s)" % (
             prop, known_sigs[sig]["what"], res.counts.get("viol:" + sig, len(vs)), json.dumps(vs[0]["case"])[:300]))
     rdir = os.path.join(HERE, "replay", prop)
+    if os.path.isdir(rdir):
+        for fn in os.listdir(rdir):
+            if fn.endswith(".json"):
+                os.unlink(os.path.join(rdir, fn))
     paths = []
     if new:
         os.makedirs(rdir, exist_ok=True)
